@@ -217,6 +217,35 @@ func (a *taintAn) flow(fn *ssa.Function, storeI *types.Interface, out *[]taintFi
 				case *ssa.TypeAssert:
 					progress = set(x, get(x.X)) || progress
 				case *ssa.Extract:
+					// per-component taint when the tuple is the result of functions under analysis
+					if call, ok := x.Tuple.(*ssa.Call); ok {
+						var cs []*ssa.Function
+						if sc := call.Call.StaticCallee(); sc != nil {
+							cs = append(cs, sc)
+						} else if node := a.c.P.CallGraph().Nodes[fn]; node != nil {
+							for _, e := range node.Out {
+								if e.Site == ssa.CallInstruction(call) {
+									cs = append(cs, e.Callee.Func)
+								}
+							}
+						}
+						all := len(cs) > 0
+						var rt taintBits
+						for _, cal := range cs {
+							if !a.inScope[cal] || x.Index >= len(a.ret[cal]) {
+								all = false
+								break
+							}
+							rt |= a.ret[cal][x.Index]
+						}
+						if all {
+							if a.srcCall != nil && a.srcCall(call) && x.Index == 0 {
+								rt |= get(x.Tuple)
+							}
+							progress = set(x, rt) || progress
+							continue
+						}
+					}
 					progress = set(x, get(x.Tuple)) || progress
 				case *ssa.Slice:
 					progress = set(x, get(x.X)) || progress
